@@ -1316,7 +1316,15 @@ Proof.
             Inv (fst (with_session h c f))).
   { intros c f Hf. unfold with_session. destruct (aget (h_conns h) c) as [cn|] eqn:Hc; [|exact I].
     destruct (c_sess cn) as [sid|]; [|exact I]. destruct (get_sess h sid) as [s|] eqn:Hs; [|exact I]. eauto. }
-  destruct o as [c addr|c hl|c rn rs rep|c to tag|c to tag|c|c|secs|b signas room q|c q|c to mk stream media|tok ok|c kindn key val|pos]; cbn [step].
+  destruct o as [c addr|c hl|c rn rs rep|c to tag|c to tag|c|c|secs|b signas room q|c q|c to mk stream media|tok ok|c kindn key val|pos|c hl late]; cbn [step].
+  15:{ (* a hello whose connection is closed while it is processed *)
+    destruct (aget (h_conns h) c) as [cn|]; [|exact I]. destruct (c_sess cn); [exact I|].
+    destruct hl as [b u rej|b u t|b tok f d|i]; try exact I.
+    - destruct rej; [exact I|]. destruct (h_nb h <=? b); [exact I|].
+      match goal with |- context [close_conn ?hh c] => destruct (close_conn hh c) as [h2 o2] eqn:H2 end. cbn [fst].
+      rewrite (fst_eq _ _ _ H2). apply Hrel.
+      match goal with |- Rel _ _ (fst (close_conn ?hh c)) => apply rel_trans with hh; [destruct late; [rel_ns|apply rel_refl]|apply rel_close_conn] end.
+    - apply Hrel. apply rel_close_conn. }
   - destruct (aget (h_conns h) c); [exact I|]. apply Hrel. rel_ns.
   - destruct (aget (h_conns h) c) as [cn|]; [|exact I]. destruct (c_sess cn); [exact I|]. apply Hrel.
     match goal with |- Rel _ _ (fst (do_hello ?hh _ _ _)) => apply rel_trans with hh; [rel_ns|apply rel_do_hello] end.
